@@ -16,7 +16,8 @@ RULE = ("cluster cases: 1-3 node in-memory clusters, 2-3 index groups (index + 1
         "group->node enumerated round-robin over the batch, optional leased-virtual and free-virtual channels in the "
         "writers; scripts of 1-3 writers opened through enumerated gateways (gateway different from every leaseholder "
         "included), explicit-commit and auto-commit, 1-4 frames of unequal length per group (so channels on different "
-        "nodes end at different times), frames that skip a leaseholder, a share of malformed requests (unknown key at "
+        "nodes end at different times), frames that skip a leaseholder, frames carrying a key mask (KeepKeys / ExcludeKeys over whole index groups and "
+        "virtual channels, incl. nothing and everything), a share of malformed requests (unknown key at "
         "open, key outside the writer in a frame); afterwards, on EVERY node: SeekFirst+Next(span)*, SeekLast+Prev(span)*, "
         "SeekGE/SeekLE+steps, SetBounds after open followed by a new seek and steps, Next/Prev(AutoSpan) with a chunk "
         "size, Valid — traversals (also with narrowed bounds) through the cluster iterator, each node's own storage "
@@ -129,7 +130,27 @@ def gen_cluster(rng, idx):
             if rng.random() < 0.3:
                 rng.shuffle(cols)
                 # an index column must still come with its data columns of equal length: order is free
-            script.append({"op": "write", "w": wid, "cols": cols})
+            wop = {"op": "write", "w": wid, "cols": cols}
+            if rng.random() < 0.3:
+                # the frame carries a key mask (KeepKeys / ExcludeKeys, as calculation transforms and relay taps
+                # produce): whole index groups and virtual channels are masked in or out, incl. none and all
+                in_frame = [g for g in use if any(c["name"] == g["idx"] for c in cols)]
+                pick = [g for g in in_frame if rng.random() < 0.5]
+                x = rng.random()
+                if x < 0.12:
+                    pick = []
+                elif x < 0.24:
+                    pick = list(in_frame)
+                names = []
+                for g in pick:
+                    names += [g["idx"]] + g["data"]
+                names += [v["name"] for v in virt if rng.random() < 0.5]
+                if rng.random() < 0.15:
+                    names.append("nope")
+                rng.shuffle(names)
+                wop["mask"] = rng.choice(["keep", "exclude"])
+                wop["mask_names"] = names
+            script.append(wop)
             now += span + rng.choice([0, 0, 1, 3])
             if rng.random() < 0.5:
                 script.append({"op": "commit", "w": wid})
@@ -214,6 +235,10 @@ def c_op(case, r, o, out):
         return "(OpenW %s %s %s %s)" % (cN(o["w"]), cN(o["gw"]), clist([cN(x) for x in out["keys"]]), cbool(o["auto"]))
     if k == "write":
         cols = [cpair(cN(r["keys"].get(c["name"], 0xFFFFF)), c_series(c["vals"])) for c in o["cols"]]
+        if o.get("mask"):
+            ks = [r["keys"][n] for n in o.get("mask_names", []) if n in r["keys"]]
+            return "(WriteMasked %s %s %s %s)" % (cN(o["w"]), clist(cols), cbool(o["mask"] == "keep"),
+                                                  clist([cN(x) for x in ks]))
         return "(WriteW %s %s)" % (cN(o["w"]), clist(cols))
     if k == "commit":
         return "(CommitW %s)" % cN(o["w"])
@@ -268,7 +293,7 @@ def harness_violation(case, r):
         return "the call did not return within 25 s (writer/iterator hang) at %s" % r["hang"]
     if case["kind"] == "cluster" and r.get("note") != "unsettled":
         for o, out in zip(case["script"], r["ops"] or []):
-            if out["err"] == "other":
+            if out["err"] == "other" and o["op"] != "noop":
                 return "writer %s failed with an unclassified error: %s" % (o["op"], out["text"][:300])
         for io in r["iters"] or []:
             for t in list(io["cluster"].values()) + list(io["direct"].values()) + [io["ref"]]:
